@@ -513,7 +513,7 @@ impl Prop for C11 {
     const PART: &'static str = "bounds-ops";
     const RULE: &'static str = "proptest choice sequences -> constructible bound settings of a random kind (boxes incl. half-bounded, one-ulp wide and 1e100 wide; SO2 intervals inside, touching and partly outside [-pi,pi]; SO3 cones of radius 0, 1e-10, (1e-8, pi], > pi with arbitrary (also negated) centres; compounds) x an arbitrary state per component (inside, on the boundary +-ulp, far outside, non-canonical angle, non-unit / zero quaternion) x a sampler seed (3 draws). Sampling is skipped for cones with 1e-9 <= radius < 0.05 (cost of rejection sampling). Non-trivial = a space with non-default bounds and an input that is out of bounds or non-canonical.";
     fn random_cases(tier: Tier) -> usize {
-        tier.pick(800_000, 4_000_000)
+        tier.pick(2_400_000, 8_000_000)
     }
     fn gen(ch: &mut Ch, _tier: Tier) -> BoundsCase {
         let kind = ch.pick(&ALL_KINDS);
